@@ -769,8 +769,8 @@ class ArmV6:
                 memattrs.innerattrs = 0b00
                 memattrs.innerhints = 0b00
             else:
-                memattrs.innerattrs = 0b11
-                memattrs.innerhints = substring(attr, 1, 0)
+                memattrs.innerattrs = substring(attr, 1, 0)
+                memattrs.innerhints = 0b11
         return memattrs
 
     def remap_regs_have_reset_values(self):
